@@ -106,7 +106,7 @@ class AsyncSchedule:
     lemma = True
     params = ["tasks", "save"]
     # the loop `while True` of save_on_schedule is cut at the trivial invariant: one arbitrary iteration
-    loops = {("mysensors.task", "AsyncTasks._schedule_factory.<locals>.save_on_schedule", 0): Loop(lambda L, old, G: True)}
+    loops = {("mysensors.task", "*save_on_schedule", 0): Loop(lambda L, old, G: True)}
 
     def body(tasks, save):
         return run_schedule_and_loop(tasks, save)
